@@ -1,35 +1,83 @@
 """C05 Rendering any compiled template on any data returns Ok or a RenderError."""
 from ..gen import TG, gen_json, session, std_helpers, enc
 from ..rng import Rng
+from .common import last
 
 ID = "C05"
+BUDGET = {"quick": 2500, "thorough": 150000}
+RULE = ("compilable templates from the C04 space (string-level generator with every construct incl. ill-typed uses: each "
+        "over scalars, non-numeric segments into arrays, missing params, unknown helpers/partials/decorators, '../' past the "
+        "root), acyclic include graphs of 0..3 partials with partial blocks and inline partials, random JSON of depth ≤ 4, "
+        "strict on/off, prevent_indent on/off, three escape functions; the real crate runs in a child process under "
+        "catch_unwind; after every render a second render on the same registry must succeed; non-trivial = main template "
+        "compiled; distinct by (templates, data)")
+DEFINITE_FLOOR = 0.9
 
 
 def gen_case(rng: Rng, i):
-    data = gen_json(rng, 3, want="obj")
+    data = gen_json(rng, 4, want="obj")
     if not isinstance(data, dict):
         data = {"a": data}
     npart = rng.range(0, 3)
     pnames = ["p%d" % k for k in range(npart)]
     helpers = {"mk": "mark", "pr": "probe", "vr": "vret"}
     cfg = {"strict": rng.chance(0.3), "prevent_indent": rng.chance(0.2), "escape": rng.pick(["html", "html", "none", "mark"]),
-           "helpers": std_helpers()}
+           "helpers": std_helpers(), "decorators": [{"name": "setctx", "kind": "setctx"}, {"name": "sethelper", "kind": "sethelper"}]}
     templates = []
     for k, pn in enumerate(pnames):
-        # acyclic: partial k may include only partials with a larger index
-        tg = TG(rng.fork("p%d" % k), data, helpers, pnames[k + 1:], opt={"inline": False, "partial_block": False})
-        templates.append((pn, tg.partial_body(2, uses_block=False)))
-    tg = TG(rng.fork("main"), data, helpers, pnames)
+        tg = TG(rng.fork("p%d" % k), data, helpers, pnames[k + 1:], opt={"inline": False, "partial_block": k + 1 < npart})
+        templates.append((pn, tg.partial_body(2, uses_block=rng.chance(0.3))))
+    tg = TG(rng.fork("main"), data, helpers, pnames, opt={"decorators": rng.chance(0.3)})
     main = tg.template(3)
     templates.append(("main", main))
     case = session(cfg, templates, {"api": "render", "name": "main"}, data)
-    return case, {"stats": tg.stats}
+    # a later render on the same registry is unaffected
+    case["ops"].append({"op": "reg_string", "reg": 0, "name": "after", "src": "ok:{{{n}}}"})
+    case["ops"].append({"op": "render", "reg": 0, "api": "render", "name": "after", "data": enc({"n": 7})})
+    return case, {"npart": npart}
 
 
-def generate(rng: Rng, n):
+def generate(rng: Rng, n, tier="quick"):
     out = []
     for i in range(n):
         c, m = gen_case(rng.fork(i), i)
         c["id"] = "%s-%06d" % (ID, i)
         out.append((c, m))
     return out
+
+
+def oracle(case, meta, impl):
+    if impl.get("r") != "session":
+        return ["render did not return: %s %s" % (impl.get("r"), impl.get("stderr", impl.get("site", "")))]
+    v = []
+    rs = impl["results"]
+    for r in rs:
+        if r.get("r") in ("panic", "crash", "hang"):
+            v.append("an operation did not return Ok/Err: %s %s" % (r.get("r"), r.get("site", "")))
+    main = rs[-3]
+    if main.get("r") not in ("ok", "rerr"):
+        v.append("render returned neither output nor RenderError: %s" % main.get("r"))
+    after = rs[-1]
+    if not (after.get("r") == "ok" and after.get("out") == "ok:7"):
+        v.append("a later render on the same registry was affected: %s" % after)
+    return v
+
+
+def project(case, meta, res):
+    return res
+
+
+def nontrivial_key(case, meta, impl):
+    if impl.get("r") != "session":
+        return None
+    main = impl["results"][-3]
+    if main.get("reason") == "TemplateNotFound":
+        return None
+    return case["id"]
+
+
+def outcome_kind(case, meta, impl):
+    if impl.get("r") != "session":
+        return impl.get("r")
+    m = impl["results"][-3]
+    return "%s:%s" % (m.get("r"), m.get("reason", ""))
